@@ -45,3 +45,9 @@ def assume_model_queries(reg):
 def register_system_shapes(reg):
     reg.shape('System', {'options': 'Ref[Options]', '_privacyClassCache': 'Map[Str,Enum[PrivacyClass]]'})
     reg.shape('Options', {'privacy': 'Seq[Tuple[Enum[PrivacyClass],Str]]'})
+
+
+def register_mro_shapes(reg):
+    # Dependency subclasses collections.deque: its element sequence is the builtin view __items__
+    reg.shape('Dependency', {'__items__': 'Seq[Obj[Cls]]'})
+    reg.shape('DependencyList', {'_lists': 'Seq[Ref[Dependency]]'})
